@@ -1358,6 +1358,84 @@ func orderChild(order int) {
 	fmt.Println(strings.Join(lines, "\n"))
 }
 
+// c07GoTest runs a small test package against /repo with `go test -rapid.seed=…` twice; the test cases of the three
+// ways to set up a check must be the same in both runs and the same among each other
+func c07GoTest(tmp string) (what string, ran bool) {
+	goBin, err := exec.LookPath("go")
+	if err != nil {
+		return "no go tool", false
+	}
+	repo := os.Getenv("VERIF_REPO")
+	if repo == "" {
+		repo = "/repo"
+	}
+	dir, err := os.MkdirTemp(tmp, "c07go-")
+	if err != nil {
+		return err.Error(), false
+	}
+	defer os.RemoveAll(dir)
+	sum, _ := os.ReadFile(filepath.Join(repo, "go.sum"))
+	_ = os.WriteFile(filepath.Join(dir, "go.sum"), sum, 0o644)
+	_ = os.WriteFile(filepath.Join(dir, "go.mod"), []byte("module c07probe\n\ngo 1.18\n\nrequire pgregory.net/rapid v0.0.0\n\nreplace pgregory.net/rapid => "+repo+"\n"), 0o644)
+	_ = os.WriteFile(filepath.Join(dir, "probe_test.go"), []byte(`package c07probe
+
+import (
+	"fmt"
+	"testing"
+
+	"pgregory.net/rapid"
+)
+
+func prop(tag string) func(*rapid.T) {
+	return func(t *rapid.T) {
+		a := rapid.IntRange(-1000, 1000).Draw(t, "a")
+		b := rapid.SliceOfN(rapid.Uint8(), 0, 3).Draw(t, "b")
+		fmt.Printf("CASE %s %d %v\n", tag, a, b)
+	}
+}
+
+// created while the package is initialised: the flags of the test binary are not parsed yet
+var early = rapid.MakeCheck(prop("early"))
+
+func TestEarly(t *testing.T)  { t.Run("sub", early) }
+func TestInline(t *testing.T) { t.Run("sub", rapid.MakeCheck(prop("inline"))) }
+func TestCheck(t *testing.T)  { rapid.Check(t, prop("check")) }
+`), 0o644)
+	runOnce := func() (map[string][]string, string) {
+		cmd := exec.Command(goBin, "test", "-vet=off", "-count=1", "-rapid.seed=4242", "-rapid.checks=15", ".")
+		cmd.Dir = dir
+		cmd.Env = append(os.Environ(), "GOFLAGS=-mod=mod", "GOPROXY=off", "GOSUMDB=off", "GOTOOLCHAIN=local")
+		out, err := cmd.CombinedOutput()
+		cases := map[string][]string{}
+		for _, ln := range strings.Split(string(out), "\n") {
+			if f := strings.SplitN(ln, " ", 3); len(f) == 3 && f[0] == "CASE" {
+				cases[f[1]] = append(cases[f[1]], f[2])
+			}
+		}
+		if err != nil {
+			return cases, tail(string(out), 400)
+		}
+		return cases, ""
+	}
+	c1, e1 := runOnce()
+	if e1 != "" && len(c1) == 0 {
+		return "go test did not run: " + e1, false // no toolchain / no module cache: not a finding
+	}
+	c2, _ := runOnce()
+	for _, tag := range []string{"early", "inline", "check"} {
+		if len(c1[tag]) != 15 {
+			return fmt.Sprintf("-rapid.checks=15: the %s check ran %d test cases", tag, len(c1[tag])), true
+		}
+		if strings.Join(c1[tag], ";") != strings.Join(c2[tag], ";") {
+			return fmt.Sprintf("two runs with -rapid.seed=4242: the test cases of the %s check differ (first: %s / %s)", tag, c1[tag][0], c2[tag][0]), true
+		}
+		if strings.Join(c1[tag], ";") != strings.Join(c1["check"], ";") {
+			return fmt.Sprintf("-rapid.seed=4242: the %s MakeCheck runs other test cases than Check (first: %s / %s)", tag, c1[tag][0], c1["check"][0]), true
+		}
+	}
+	return "", true
+}
+
 const c04AliasGens = 7
 
 // draw, remember, scribble over the value, draw again from the same bits: "" or what differs
@@ -1620,6 +1698,17 @@ func min(a, b int) int {
 
 func init() {
 	monitors["C07"] = func(r *rng, scale int, m *monOut, tmp string) {
+		// a fixed seed fixes the run whatever way the check is set up: Check, MakeCheck inline, and a MakeCheck value
+		// created before the test binary parsed its flags (a package-level table of subtests) — through `go test`
+		if what, ran := c07GoTest(tmp); ran {
+			m.tag("go-test-makecheck")
+			m.eval("go-test-makecheck", true)
+			if what != "" {
+				m.violate(violation{"C07", "seed", what, map[string]string{"how": "go test -rapid.seed=4242 in a scratch module with a package-level MakeCheck"}})
+			}
+		} else {
+			m.tag("go-test-unavailable:" + what)
+		}
 		for i := 0; i < 40*scale; i++ {
 			// fails for a value class of known frequency ⇒ first failing index varies
 			th := []int{0, 30, 60, 90, 97, 99}[r.intn(6)]
@@ -1683,6 +1772,29 @@ func init() {
 	}
 
 	monitors["C09"] = func(r *rng, scale int, m *monOut, tmp string) {
+		// very large numbers of checks with deadlines near and far: every one of them is run (a property that
+		// neither draws nor fails; the count is all that is looked at)
+		for _, big := range []struct {
+			checks int
+			until  time.Duration
+		}{{110000, 24 * time.Hour}, {250000, 24 * time.Hour}, {120000, 1000 * time.Hour}, {20000, 10 * time.Minute}} {
+			fl := baseFlags()
+			fl.Checks = big.checks
+			fl.Seed = r.u64() | 1
+			calls := 0
+			tb := newRecTB("c09big")
+			withFlags(fl, func() {
+				runTB(func() {
+					rapid.VerifCheckTB(tb, time.Now().Add(big.until), func(t *rapid.T) { calls++ })
+				})
+			})
+			m.tag("large-checks")
+			m.eval(fmt.Sprintf("large-checks %d %v", big.checks, big.until), true)
+			if calls != big.checks || tb.failed {
+				m.violate(violation{"C09", "counts", fmt.Sprintf("checks=%d with the deadline %v away: the property ran %d times (test failed: %v)", big.checks, big.until, calls, tb.failed),
+					map[string]string{"checks": fmt.Sprint(big.checks), "until": big.until.String()}})
+			}
+		}
 		for i := 0; i < 60*scale; i++ {
 			n := int(r.pick(0, 1, 2, 5, 17, 100))
 			skipBelow := int(r.pick(0, 0, 3, 5, 9, 10)) // of 10: how often a case is skipped
@@ -1906,6 +2018,32 @@ func init() {
 							what = fmt.Sprintf("-rapid.failfile rerun gives %s", run3.verdict)
 						}
 					}
+					// -rapid.failfile is given for the whole test binary: when it names the file of another test (one that
+					// passes here), or a file that is not there, the failure persisted for *this* test is still replayed first
+					if what == "" {
+						stale := filepath.Join(tmp, "c06-other-test.fail")
+						_ = os.WriteFile(stale, []byte("# another test\n"+rapid.VerifVersion+"#1\n0x0\n0x0\n0x0\n0x0\n0x0\n0x0"), 0o644)
+						for _, ex := range []string{stale, filepath.Join(tmp, "c06-missing.fail")} {
+							fl4 := fl2
+							fl4.Failfile = ex
+							var run4 *tbRun
+							inDir(dir, func() { run4 = runCheckTB(prog, fl4, name, logOutput) })
+							kind4, valid4, msg4 := verdictMsg(run4.verdict)
+							m.tag("failfile-flag-names-another-file")
+							replayedFirst := false
+							for _, inv := range run4.in.invs {
+								if !inv.isBuf {
+									break
+								}
+								if strings.Join(inv.draws, ";") == strings.Join(last1.draws, ";") {
+									replayedFirst = true
+								}
+							}
+							if kind4 != "failed" || valid4 != "0" || msg4 != msg1 || !replayedFirst {
+								what = fmt.Sprintf("with -rapid.failfile=%s (not a failing case of this test) the persisted failure is not replayed first: %s", filepath.Base(ex), run4.verdict)
+							}
+						}
+					}
 				}
 			}
 			m.tag("name-" + name[:min(len(name), 8)])
@@ -2053,6 +2191,31 @@ func init() {
 						}
 					}
 					os.RemoveAll(only)
+					// the usable file damaged so that every data line still *starts* like a word: trailing junk, two words on a
+					// line, a comment behind the word, a conflict marker — unusable; the verdict is that of a run without files
+					for ji, junk := range []string{"?? <<<<<<< garbage", ",0x2b", " # note", "xyz", " 0x1", "\t0b1"} {
+						var lines []string
+						for li, ln := range strings.Split(string(usable), "\n") {
+							if strings.HasPrefix(ln, "0x") && (ji%2 == 0 || li%2 == 0) {
+								ln += junk
+							}
+							lines = append(lines, ln)
+						}
+						jdir, _ := os.MkdirTemp(tmp, "c17j-")
+						_ = os.MkdirAll(filepath.Join(jdir, "testdata", "rapid", name), 0o775)
+						_ = os.WriteFile(filepath.Join(jdir, "testdata", "rapid", name, later), []byte(strings.Join(lines, "\n")), 0o644)
+						var junked *tbRun
+						inDir(jdir, func() { junked = runCheckTB(prog, fl, name, nil) })
+						m.tag("file-trailing-junk")
+						m.eval("junk"+junk+src+fmt.Sprint(fl.Seed), true)
+						if junked.escaped != nil || junked.verdict != without.verdict || randomDraws(junked) != randomDraws(without) {
+							p := flagsStr(fl)
+							p["prog"], p["files"], p["junk"] = src, "trailing-junk", junk
+							m.violate(violation{"C17", "unusable", fmt.Sprintf("a fail file whose data lines carry trailing junk %q: verdict %s, without any file: %s (crash: %v)",
+								junk, junked.verdict, without.verdict, junked.escaped), p})
+						}
+						os.RemoveAll(jdir)
+					}
 				}
 				os.RemoveAll(scratch)
 			}
